@@ -58,6 +58,7 @@ type c05Lease struct {
 	secID       string
 	dead        bool
 	limit       time.Time // issue + effective max as of the last grant
+	ns          string    // namespace the lease lives in ("" = root)
 }
 
 func runC05(rc *RunCtx) {
@@ -90,6 +91,47 @@ func runC05(rc *RunCtx) {
 	must(h.Mount("rec", "rec", nil))
 	must(h.EnableAuth("rec", "rec"))
 	must(h.Policy("p", c04Policy))
+	// a namespace (a third of the runs plain, a third with its own seal) with
+	// the same engines: its leases live under namespaces/<uuid>/sys/expire/
+	nsMode := []string{"none", "plain", "sealable"}[tp.Pick(3)]
+	rc.Cfg("namespace", nsMode)
+	nsKey := ""
+	nsSealed := false
+	if nsMode != "none" {
+		var d map[string]any
+		if nsMode == "sealable" {
+			d = map[string]any{"seal": `seal "shamir" { shares = 1  threshold = 1 }`}
+		}
+		r, err := h.Do("setup", Req{Op: logical.UpdateOperation, Path: "sys/namespaces/n1", Token: h.Root, Data: d})
+		if err != nil || (r != nil && r.IsError()) {
+			panic(fmt.Sprint("namespace: ", err, r))
+		}
+		if nsMode == "sealable" {
+			switch ks := r.Data["key_shares"].(type) {
+			case []string:
+				nsKey = ks[0]
+			case []any:
+				nsKey = fmt.Sprint(ks[0])
+			}
+			h.Do("setup", Req{Op: logical.UpdateOperation, Path: "sys/namespaces/n1/unseal", Token: h.Root, Data: map[string]any{"key": nsKey}})
+		}
+		for _, rq := range []Req{
+			{Op: logical.UpdateOperation, Path: "sys/mounts/rec", Data: map[string]any{"type": "rec"}},
+			{Op: logical.UpdateOperation, Path: "sys/auth/rec", Data: map[string]any{"type": "rec"}},
+			{Op: logical.UpdateOperation, Path: "sys/policies/acl/p", Data: map[string]any{"policy": c04Policy}},
+		} {
+			rq.Token, rq.NS = h.Root, "n1/"
+			if r, err := h.Do("setup", rq); err != nil || (r != nil && r.IsError()) {
+				panic(fmt.Sprint("namespace setup: ", err, r))
+			}
+		}
+	}
+	pickNS := func() string {
+		if nsMode != "none" && !nsSealed && tp.Pick(3) == 0 {
+			return "n1/"
+		}
+		return ""
+	}
 	mountMax := map[string]time.Duration{"rec": 0, "authrec": 0, "token": 0}
 	sysMaxFor := func(m string) time.Duration {
 		if v := mountMax[m]; v > 0 {
@@ -135,8 +177,17 @@ func runC05(rc *RunCtx) {
 		return true
 	}
 	storedKey := func(l *c05Lease) string {
-		if l.kind == "secret" {
+		if l.kind == "secret" && l.ns == "" {
 			return "sys/expire/id/" + l.id
+		}
+		if l.kind == "secret" && nsMode == "plain" {
+			// (a namespace without its own seal is encrypted by the root barrier)
+			for _, k := range disk.RawKeys("namespaces/") {
+				if strings.HasSuffix(k, "/sys/expire/id/"+l.id) {
+					return k
+				}
+			}
+			return "namespaces/-/sys/expire/id/" + l.id // gone
 		}
 		return ""
 	}
@@ -163,12 +214,23 @@ func runC05(rc *RunCtx) {
 		}
 		return true
 	}
+	nsLeasesSeen := 0
+	restoreFaultDuringUnseal := false
+	restoreFaultFired := false
+	recheck := false
+	var checkTrackingFn func(string) bool
 	checkTracking := func(phase string) bool {
 		s.SetControlled()
 		s.Drain(10*time.Second, 2*time.Second)
 		s.PassThrough()
 		pend, nonexp, irr, restoring := vault.VerifTrackedLeases(h.Core)
 		if restoring {
+			return true
+		}
+		if h.Core.Sealed() {
+			// the node gave up (a failed lease restore shuts it down): it is not an
+			// active node with untracked leases; the history goes on against a sealed node
+			s.Probe("tracking_checked_on_sealed_node")
 			return true
 		}
 		tracked := map[string]bool{}
@@ -182,12 +244,37 @@ func runC05(rc *RunCtx) {
 				missing = append(missing, id)
 			}
 		}
+		// leases of namespaces live under namespaces/<uuid>/sys/expire/id/; those
+		// of a sealed namespace are legitimately not loaded
+		if !nsSealed {
+			for _, k := range disk.RawKeys("namespaces/") {
+				if i := strings.Index(k, "/sys/expire/id/"); i > 0 && strings.Count(k[:i], "/") == 1 {
+					id := k[i+len("/sys/expire/id/"):]
+					if !tracked[id] {
+						missing = append(missing, k)
+					}
+					nsLeasesSeen++
+				}
+			}
+		}
 		if len(missing) > 0 {
-			viol("stored-lease-not-tracked", map[string]any{"phase": phase}, "%s: leases in storage but not tracked for expiry: %v", phase, missing)
+			// a node whose lease restore failed shuts itself down from a goroutine:
+			// give it a moment before judging "active with untracked leases"
+			if !recheck {
+				recheck = true
+				s.SetControlled()
+				s.Drain(30*time.Second, 5*time.Second)
+				s.PassThrough()
+				ok := checkTrackingFn(phase)
+				recheck = false
+				return ok
+			}
+			viol("stored-lease-not-tracked", map[string]any{"phase": phase, "restore_read_fault": restoreFaultFired, "fault_before_unseal_returned": restoreFaultDuringUnseal}, "%s: leases in storage but not tracked for expiry: %v", phase, missing)
 			return false
 		}
 		return true
 	}
+	checkTrackingFn = checkTracking
 	secs := func(d time.Duration) int { return int(d / time.Second) }
 	nOps := 6 + tp.Pick(10)
 	if rc.Thorough() {
@@ -215,12 +302,13 @@ func runC05(rc *RunCtx) {
 			if mx > 0 {
 				data["max_ttl"] = secs(mx)
 			}
-			resp, err := h.Do("issue", Req{Op: logical.UpdateOperation, Path: "rec/creds/a", Token: h.Root, Data: data})
+			lns := pickNS()
+			resp, err := h.Do("issue", Req{Op: logical.UpdateOperation, Path: "rec/creds/a", Token: h.Root, NS: lns, Data: data})
 			if err != nil || resp == nil || resp.Secret == nil {
 				note("issue secret ttl=%s max=%s -> error %v", ttl, mx, err)
 				continue
 			}
-			l := &c05Lease{kind: "secret", id: resp.Secret.LeaseID, issue: time.Now(), backendMax: mx, mount: "rec", renewable: !noRenew}
+			l := &c05Lease{kind: "secret", id: resp.Secret.LeaseID, issue: time.Now(), backendMax: mx, mount: "rec" + lns, renewable: !noRenew, ns: lns}
 			l.secID, _ = resp.Data["secret_id"].(string)
 			leases = append(leases, l)
 			note("issue secret %s ttl=%s max=%s -> ttl %s", l.secID, ttl, mx, resp.Secret.TTL)
@@ -234,9 +322,12 @@ func runC05(rc *RunCtx) {
 			}
 			l := ls[tp.Pick(len(ls))]
 			inc := durs[tp.Pick(len(durs))]
-			resp, err := h.Do("renew", Req{Op: logical.UpdateOperation, Path: "sys/leases/renew", Token: h.Root, Data: map[string]any{"lease_id": l.id, "increment": secs(inc)}})
+			if l.ns != "" && nsSealed {
+				continue
+			}
+			resp, err := h.Do("renew", Req{Op: logical.UpdateOperation, Path: "sys/leases/renew", Token: h.Root, NS: l.ns, Data: map[string]any{"lease_id": l.id, "increment": secs(inc)}})
 			ok := err == nil && resp != nil && !resp.IsError() && resp.Secret != nil
-			note("renew %s +%s -> ok=%v", l.secID, inc, ok)
+			note("renew %s%s +%s -> ok=%v", l.ns, l.secID, inc, ok)
 			expired := time.Now().After(l.expire)
 			_, _, irr, _, _ := vault.VerifStoredLease(h.Core, storedKey(l))
 			if ok && (expired || !l.renewable || irr) {
@@ -292,12 +383,13 @@ func runC05(rc *RunCtx) {
 			if period > 0 {
 				data["period"] = secs(period)
 			}
-			resp, err := h.Do("login", Req{Op: logical.UpdateOperation, Path: "auth/rec/login", Data: data})
+			lns := pickNS()
+			resp, err := h.Do("login", Req{Op: logical.UpdateOperation, Path: "auth/rec/login", NS: lns, Data: data})
 			if err != nil || resp == nil || resp.Auth == nil {
 				note("login ttl=%s max=%s emax=%s period=%s -> error %v", ttl, mx, emx, period, err)
 				continue
 			}
-			l := &c05Lease{kind: "token", id: resp.Auth.ClientToken, accessor: resp.Auth.Accessor, issue: time.Now(), backendMax: mx, explicitMax: emx, period: period, mount: "authrec", renewable: true}
+			l := &c05Lease{kind: "token", id: resp.Auth.ClientToken, accessor: resp.Auth.Accessor, issue: time.Now(), backendMax: mx, explicitMax: emx, period: period, mount: "authrec" + lns, renewable: true, ns: lns}
 			leases = append(leases, l)
 			note("login ttl=%s max=%s emax=%s period=%s -> ttl %s", ttl, mx, emx, period, resp.Auth.TTL)
 			if !checkGrant(l, resp.Auth.TTL, "login") {
@@ -310,7 +402,10 @@ func runC05(rc *RunCtx) {
 			}
 			l := ls[tp.Pick(len(ls))]
 			inc := durs[tp.Pick(len(durs))]
-			resp, err := h.Do("trenew", Req{Op: logical.UpdateOperation, Path: "auth/token/renew", Token: h.Root, Data: map[string]any{"token": l.id, "increment": secs(inc)}})
+			if l.ns != "" && nsSealed {
+				continue
+			}
+			resp, err := h.Do("trenew", Req{Op: logical.UpdateOperation, Path: "auth/token/renew", Token: h.Root, NS: l.ns, Data: map[string]any{"token": l.id, "increment": secs(inc)}})
 			ok := err == nil && resp != nil && !resp.IsError() && resp.Auth != nil
 			note("token renew %s +%s -> ok=%v", l.accessor, inc, ok)
 			expired := time.Now().After(l.expire.Add(slack))
@@ -327,7 +422,10 @@ func runC05(rc *RunCtx) {
 				continue
 			}
 			l := ls[tp.Pick(len(ls))]
-			resp, err := h.Do("lookup", Req{Op: logical.UpdateOperation, Path: "auth/token/lookup", Token: h.Root, Data: map[string]any{"token": l.id}})
+			if l.ns != "" && nsSealed {
+				continue
+			}
+			resp, err := h.Do("lookup", Req{Op: logical.UpdateOperation, Path: "auth/token/lookup", Token: h.Root, NS: l.ns, Data: map[string]any{"token": l.id}})
 			if err != nil || resp == nil || resp.IsError() || resp.Data == nil {
 				if !time.Now().After(l.expire) {
 					s.Probe("lookup_failed_before_expiry")
@@ -372,16 +470,32 @@ func runC05(rc *RunCtx) {
 			note("restart (restore read fault: %v, requests during restore: %v)", faultyRestore, busy)
 			var nh *CoreH
 			var err error
-			if busy {
+			// (a restart with a restore fault runs under the scheduler as well:
+			// whether the failing read comes before or after the unseal returns
+			// is then a recorded scheduling decision, not the Go runtime's)
+			scheduled := busy || faultyRestore
+			restoreFaultDuringUnseal = false
+			if scheduled {
 				h.Shutdown()
 				s.SetControlled()
 				s.Go(fmt.Sprintf("reboot%d", i), func() { nh, err = Reboot(nd, h) })
 				s.RunClients()
+				restoreFaultDuringUnseal = faultyRestore && nd.FailHits > 0
+				if faultyRestore {
+					s.PassThrough()
+				}
 			} else {
 				nh, err = Reboot(nd, h)
 			}
 			if err != nil {
-				panic(err)
+				if faultyRestore && nh == nil {
+					// the unseal itself ran into the injected fault or the self-shutdown: start again without fault
+					nd.FailNth = 0
+					nh, err = Reboot(nd, h)
+				}
+				if err != nil {
+					panic(err)
+				}
 			}
 			if s.Trunc {
 				nh.Shutdown()
@@ -390,7 +504,7 @@ func runC05(rc *RunCtx) {
 			old := h
 			h = nh
 			disk = nh.Disk
-			if !busy {
+			if !scheduled {
 				old.Shutdown()
 			}
 			s.Faults["crash"]++
@@ -479,6 +593,7 @@ func runC05(rc *RunCtx) {
 				if nd.FailHits > 0 {
 					s.Faults["err-na"]++
 					s.Probe("restore_read_fault_fired")
+					restoreFaultFired = true
 				}
 				nd.FailNth = 0
 				if h.Core.Sealed() {
@@ -497,10 +612,49 @@ func runC05(rc *RunCtx) {
 					s.Probe("node_stayed_active_after_restore_fault")
 				}
 			}
+			if nsMode == "sealable" {
+				// a restarted node has the namespace sealed until its own share is supplied again
+				nsSealed = true
+				if !checkTracking("after-restart") {
+					return
+				}
+				if r, err := h.Do("nsunseal", Req{Op: logical.UpdateOperation, Path: "sys/namespaces/n1/unseal", Token: h.Root, Data: map[string]any{"key": nsKey}}); err == nil && (r == nil || !r.IsError()) {
+					nsSealed = false
+					for _, l := range leases {
+						if l.ns != "" && !l.dead && time.Now().After(l.expire.Add(time.Minute)) {
+							l.dead = true
+						}
+					}
+				}
+			}
 			if !checkTracking("after-restart") {
 				return
 			}
 		case 10:
+			if nsMode == "sealable" && tp.Pick(2) == 0 { // seal / unseal the namespace: its leases are unloaded / restored
+				if !nsSealed {
+					if r, err := h.Do("nsseal", Req{Op: logical.UpdateOperation, Path: "sys/namespaces/n1/seal", Token: h.Root}); err == nil && (r == nil || !r.IsError()) {
+						nsSealed = true
+						note("namespace n1 sealed")
+						s.Faults["namespace-seal"]++
+					}
+				} else {
+					if r, err := h.Do("nsunseal", Req{Op: logical.UpdateOperation, Path: "sys/namespaces/n1/unseal", Token: h.Root, Data: map[string]any{"key": nsKey}}); err == nil && (r == nil || !r.IsError()) {
+						nsSealed = false
+						note("namespace n1 unsealed")
+						// leases that expired while the namespace was sealed are revoked now
+						for _, l := range leases {
+							if l.ns != "" && !l.dead && time.Now().After(l.expire.Add(time.Minute)) {
+								l.dead = true
+							}
+						}
+						if !checkTracking("after-namespace-unseal") {
+							return
+						}
+					}
+				}
+				continue
+			}
 			if tp.Pick(2) == 0 { // tune a mount maximum
 				m := []string{"rec", "authrec"}[tp.Pick(2)]
 				v := []time.Duration{time.Hour, 36 * time.Hour}[tp.Pick(2)]
@@ -574,6 +728,9 @@ func runC05(rc *RunCtx) {
 	for _, l := range leases {
 		if l.kind != "secret" {
 			continue
+		}
+		if storedKey(l) == "" {
+			continue // namespace with its own seal: not decodable through the root barrier
 		}
 		_, expire, isIrr, _, ok := vault.VerifStoredLease(h.Core, storedKey(l))
 		if !ok {
